@@ -115,3 +115,32 @@ Proof.
   - destruct b; [constructor | discriminate].
   - destruct (remove_one x b) as [b'|] eqn:E; [|discriminate]. apply remove_one_perm in E. rewrite E. constructor. now apply IH.
 Qed.
+
+Lemma NoDup_app_one {A} (l : list A) x : NoDup l -> ~ In x l -> NoDup (l ++ [x]).
+Proof.
+  induction 1 as [|y l Hy Hl IH]; intros Hx; cbn.
+  - constructor; [tauto | constructor].
+  - constructor.
+    + rewrite in_app_iff. cbn. intros [H|[H|[]]]; [tauto | subst; apply Hx; now left].
+    + apply IH. intros H. apply Hx. now right.
+Qed.
+
+(* ---- senders table ---- *)
+Lemma key_eqb_eq a b : key_eqb a b = true <-> a = b.
+Proof.
+  destruct a, b; cbn; try (split; [discriminate | congruence]); try tauto.
+  rewrite Nat.eqb_eq. split; congruence.
+Qed.
+Lemma in_del_key l k p : In p (del_key l k) <-> In p l /\ fst p <> k.
+Proof.
+  unfold del_key. rewrite filter_In. split; intros [H1 H2]; split; try assumption.
+  - intros E. rewrite <- key_eqb_eq in E. now rewrite E in H2.
+  - destruct (key_eqb (fst p) k) eqn:E; [apply key_eqb_eq in E; congruence | reflexivity].
+Qed.
+Lemma nodup_del_key l k : NoDup (map fst l) -> NoDup (map fst (del_key l k)).
+Proof.
+  unfold del_key. induction l as [|[k' c] l IH]; cbn; intros H; [constructor|]. inversion H; subst.
+  destruct (negb (key_eqb k' k)); [|now apply IH]. cbn. constructor; [|now apply IH].
+  intros Hin. apply H2. apply in_map_iff in Hin. destruct Hin as (p & E & Hp). apply filter_In in Hp. apply in_map_iff. exists p. tauto.
+Qed.
+
